@@ -52,6 +52,23 @@ def make_case(rng):
     case = gen.multi_feature_case(rng, kind=gen.pick(rng, ["binary", "binary", "continuous"]), n=int(gen.pick(rng, [120, 250, 500])),
                                   n_feat=int(rng.integers(2, 7)), with_dev=rng.random() < 0.2)
     which = gen.pick(rng, ["carver", "carver", "Discretizer"])
+    if case.quant and rng.random() < 0.6:
+        # a min_freq whose 1/min_freq is rounded down, and a column with values sitting exactly on the frequency bounds
+        from . import c09
+        mf = gen.pick(rng, [0.07, 0.08, 0.12, 0.3])
+        case.config["min_freq"] = mf
+        gen.tame(case.config, limit=max(40, int(1500 / max(1, len(case.features)))))
+        f = gen.pick(rng, case.quant)
+        x = c09.exact_freq_column(rng, len(case.X), mf)
+        # a value strictly inside [min_freq, 1/round(1/min_freq))
+        q = round(1 / mf)
+        cnt = int(np.ceil(mf * len(x))) + (1 if (np.ceil(mf * len(x)) + 1) / len(x) < 1 / q else 0)
+        pos = rng.permutation(len(x))[:cnt]
+        x[pos] = 77.0
+        case.X[f] = x
+        if case.X_dev is not None:
+            case.X_dev[f] = x[rng.choice(len(x), len(case.X_dev), replace=True)]
+        case.meta["exact_freq_column"] = f
     return case, which
 
 
